@@ -268,6 +268,14 @@ Theorem C16_no_zero_tone_partial : forall pin neg tbl st o,
 Proof. exact no_zero_tone. Qed.
 Print Assumptions C16_no_zero_tone_partial.
 
+(* ... and for whole histories: default_frequency and every frequency argument outside (0, 1/2) (sweeps:
+   both ends <= 0 or both >= 1/2) => no call sequence ever issues tone(pin, 0) *)
+Theorem C16_no_zero_tone_sequences_partial : forall pin neg tbl default ops,
+  audible_arg default = true -> forallb (half_guard_static tbl) ops = true ->
+  Forall (fun t => 1 <= t) (tones (snd (run pin neg tbl (init default) ops))).
+Proof. exact no_zero_tone_sequences. Qed.
+Print Assumptions C16_no_zero_tone_sequences_partial.
+
 Theorem C16_generated_melodies_in_half_guard :
   forallb (fun kv => forallb (fun fb => audible_arg (fst fb)) (snd (snd kv))) emitter_melodies = true.
 Proof. exact generated_melodies_audible. Qed.
